@@ -103,7 +103,7 @@ Lemma u_alloc_rec : forall up live bk base n,
   OK [] ((N.of_nat (length (fst bk)), cls n) :: up) live (fst bk ++ [n], snd bk) base.
 Proof.
   intros up live [sizes freed] base n H Hb. cbn [fst snd] in *.
-  simpl in H. destruct H as [H1 [H2 [H3 H4]]]. simpl. split; [|split; [|split]].
+  simpl in H. destruct H as [H1 [H2 [H3 [H4 H5]]]]. simpl. split; [|split; [|split; [|split; [|exact H5]]]].
   - intros id k [Ei|Hi].
     + inversion Ei; subst. split; [exact Hb|]. split; [rewrite app_length; simpl; lia|].
       intros Hin. apply H4 in Hin. lia.
@@ -312,15 +312,16 @@ Lemma rec_free_ok : forall id k up live bk base n caller a,
   OK [] ((id, k) :: up) live bk base -> szof (fst bk) id = Some a -> size_ok a n caller = true ->
   apply_evs caller [] bk [EF id n] = Some (fst bk, id :: snd bk) /\ OK [] up live (fst bk, id :: snd bk) base.
 Proof.
-  intros id k up live [sizes freed] base n caller a H Ha Hs. cbn [fst snd] in *. simpl in H. destruct H as [H1 [H2 [H3 H4]]].
+  intros id k up live [sizes freed] base n caller a H Ha Hs. cbn [fst snd] in *. simpl in H. destruct H as [H1 [H2 [H3 [H4 H5]]]].
   destruct (H1 id k (or_introl eq_refl)) as [A [B C]]. split.
   - simpl. rewrite Ha. apply memN_false in C. rewrite C, Hs. reflexivity.
-  - simpl. inversion H3 as [|? ? N1 N2]; subst. split; [|split; [|split]].
+  - simpl. inversion H3 as [|? ? N1 N2]; subst. split; [|split; [|split; [|split]]].
     + intros id' k' Hi. destruct (H1 id' k' (or_intror Hi)) as [A' [B' C']]. split; [exact A'|]. split; [exact B'|].
       intros [E|E]; [|tauto]. subst id'. apply N1. apply in_map_iff. exists (id, k'). auto.
     + intros id' Ha' Hb'. destruct (H2 id' Ha' Hb') as [G|[G|G]]; [left; right; exact G | left; left; exact G | right; exact G].
     + exact N2.
     + intros id' [E|E]; [subst; exact B | apply H4; exact E].
+    + intros e He Ho. destruct (H5 e He Ho) as [G1 G2]. split; [exact G1|]. intros [E|E]; [lia | tauto].
 Qed.
 
 Lemma u_free_known : forall f stk id k up live bk base n caller stk' evs w,
